@@ -1919,7 +1919,7 @@ def run(ctx):
     tables = getattr(ctx, "tables", None) or _tables()[1]
     funcs = _check_registration(ctx, pc, tables)
     worlds = _worlds()
-    reps = ctx.budget(1, 12)
+    reps = ctx.budget(1, 7)
     lines, pending = [], []
     with _watch_recursion():
         for rep in range(reps):
